@@ -573,7 +573,9 @@ class Machine:
     def _time_pattern(self) -> None:
         inst = self.current_inst
         if inst.param0 == SetOp.INIT:
-            self._reg.time = inst.param1
+            # A copy: the following UNIONs must not alter the pattern that
+            # belongs to the program (or to a macro shared by several places).
+            self._reg.time = inst.param1.copy()
         else:
             self._reg.time.union(inst.param1)
 
